@@ -1,8 +1,8 @@
 (* C16 — Routing-cost providers return exactly the supplied data.
    Only the property theorems, statements written out in full, each closed by `exact`.
    Model: Model/Routing.v (rational data, see its header for the Rust items), lemmas: Proofs/RoutingP.v.
-   `consistent` / `accepts_cond` are the declarative predicates defined in Proofs/RoutingP.v
-   (natural consistency with n*n lengths, resp. the weaker rounded-square-root condition the code enforces). *)
+   `consistent` is the declarative predicate defined in Proofs/RoutingP.v (natural consistency with n*n lengths);
+   since repair 17fc8e9 (finding C16-F1) it is what the code enforces. *)
 From VRP Require Import Base.Tac Model.Routing Proofs.RoutingP.
 From Coq Require Import QArith Permutation.
 Open Scope Z_scope.
@@ -98,26 +98,36 @@ Theorem C16_aware_linear_in_real_time_refuted :
 Proof. exact aware_linear_in_real_time_refuted. Qed.
 
 (* ---- clause 3: inconsistent matrix sets are rejected when the provider is built.
-   Full statement:  forall M, ~ consistent M -> exists e, build M = Err e.
-   FINDING C16-F1: refuted — squareness / equal sizes are only tested through round(sqrt(len)). *)
-Theorem C16_inconsistent_rejected_refuted :
-  exists M p, ~ consistent M /\ build M = Ok p /\ psize p = 2%nat /\
-              duration p no_fallback 0 1%Q 1 1 0%Q = Panic.
-Proof. exact inconsistent_rejected_refuted. Qed.
-
-(* proved part: everything violating the weaker condition is rejected (empty set, |dur| <> |dist|, different rounded
-   sizes, mixed timestamps, single timed matrix for a profile, time-agnostic profile indices not a permutation of 0..k-1);
-   missing for the full statement: "length is a square", i.e. accepts_cond -> consistent *)
-Theorem C16_inconsistent_rejected_partial : forall M,
+   FULL statement, proved for the code as it is since repair 17fc8e9 (finding C16-F1: before it, squareness / equal sizes
+   were only tested through round(sqrt(len))).  `consistent` is the natural reading: non-empty, one n with n*n durations
+   and n*n distances in every matrix, and either no timestamps with profile indices a permutation of 0..k-1, or
+   timestamps everywhere with at least two matrices per profile. *)
+Theorem C16_inconsistent_rejected : forall M,
   ~ (M <> [] /\
-     (exists n, forall m, In m M -> length (m_dist m) = length (m_dur m) /\ rsqrt (length (m_dur m)) = n) /\
+     (exists n, forall m, In m M -> length (m_dur m) = (n * n)%nat /\ length (m_dist m) = (n * n)%nat) /\
      (((forall m, In m M -> m_ts m = None) /\ Permutation (map m_index M) (seq 0 (length M)))
       \/ ((forall m, In m M -> m_ts m <> None) /\ (forall m, In m M -> length (group_raw M (m_index m)) <> 1%nat)))) ->
   exists e, build M = Err e.
-Proof. exact inconsistent_rejected_partial. Qed.
+Proof. exact inconsistent_rejected. Qed.
 
-Theorem C16_consistent_implies_accepts_cond : forall M, consistent M -> accepts_cond M.
-Proof. exact consistent_accepts_cond. Qed.
+Theorem C16_accepted_is_consistent : forall M p, build M = Ok p -> consistent M.
+Proof. exact build_ok_consistent. Qed.
+
+(* every accepted matrix has exactly size() * size() durations and distances *)
+Theorem C16_accepted_square : forall M p, build M = Ok p ->
+  forall m, In m M -> length (m_dur m) = (psize p * psize p)%nat /\ length (m_dist m) = (psize p * psize p)%nat.
+Proof. exact build_ok_square. Qed.
+
+(* the former finding C16-F1, restated about the function BEFORE the repair (build_prefix): it accepted a 3-entry matrix
+   with size 2 and the cell (1,1) panicked; the repaired build rejects that set, and on square data of one size both agree *)
+Theorem C16_inconsistent_rejected_prefix_refuted :
+  exists M p, ~ consistent M /\ build_prefix M = Ok p /\ psize p = 2%nat /\
+              duration p no_fallback 0 1%Q 1 1 0%Q = Panic /\ build M = Err ENotSquare.
+Proof. exact inconsistent_rejected_prefix_refuted. Qed.
+
+Theorem C16_repair_changes_only_non_square : forall M n,
+  (forall m, In m M -> length (m_dur m) = (n * n)%nat /\ length (m_dist m) = (n * n)%nat) -> build M = build_prefix M.
+Proof. exact build_prefix_agrees. Qed.
 
 (* ---- clause 4: entries flagged unreachable surface as negative values (pragmatic error codes) *)
 Theorem C16_unreachable_negative : forall pm codes du di k e scale,
